@@ -247,7 +247,7 @@ var _ = rt.Native
 
 type symxTaps struct{}
 
-func (symxTaps) Run(ctx context.Context)                                        {}
+func (symxTaps) Run(ctx context.Context)                                 {}
 func (symxTaps) Dispatch(context.Context, string, *packet.Publish) error { return nil }
 
 type symxPipeline struct {
